@@ -1,6 +1,8 @@
 ----------------------------- MODULE Multipart -----------------------------
-(* C13: multipart/form-data.  A client composes a form (AddPart), encodes it with the
-   reference encoder and sends it (Send); the server side iterates the parsed form.
+(* C13: multipart/form-data.  A client composes a form (AddPart) and encodes it with the
+   reference encoder (Seal); the wire may damage the body by one edit (Corrupt, corruption
+   instances only); a handler configured with limits receives it (Serve) and the server
+   side iterates the parsed form (NextPart) while the application consumes each part.
 
    The iteration is written as the code does it, as steps of the flat cursor of
    CursorOps over the encoded body: PipeUntil(delimiter, consume), Peek(2) = "--",
